@@ -323,8 +323,16 @@ def _add_evict(P, R):
     elif cap_loops and not evict:
         R.note("record has a cap loop but no retain-style eviction (front-eviction form is judged by clause d)")
     st = [(bb, j, s) for (bb, j, s) in A.stores_to_field(rec, "start_time", TW) if j >= 0]
-    if st and "saturating_sub(event.metadata.timestamp" in fmt_sym(rec.sym_rvalue(st[0][2][4]), maxdepth=8) and "as_millis(self.duration)" in fmt_sym(rec.sym_rvalue(st[0][2][4]), maxdepth=8):
+    def _is_start(stx):
+        v = strip(rec.sym_rvalue(stx[2][4]))
+        if v[0] == "call" and v[1].endswith("saturating_sub") and len(v[2]) == 2:
+            a, b = fmt_sym(v[2][0], maxdepth=14), fmt_sym(A.inline_sym(P, v[2][1]), maxdepth=14)
+            return a.endswith("event.metadata.timestamp") and "as_millis(self.duration)" in b
+        return False
+    if st and any(_is_start(x) for x in st):
         R.hold("c", "record: start_time = now.saturating_sub(duration_ms)", fn=rec)
+    elif st and not any(strip(rec.sym_rvalue(x[2][4]))[0] == "call" and strip(rec.sym_rvalue(x[2][4]))[1].endswith(("saturating_sub", "wrapping_sub", "checked_sub")) or strip(rec.sym_rvalue(x[2][4]))[0] == "bin" for x in st):
+        R.undecide("c", "record:start", "record's store to start_time is not a subtraction this rule reads (%s)" % fmt_sym(rec.sym_rvalue(st[0][2][4]), maxdepth=6)[:80], rec)
     else:
         R.violate("c", "record:start", "record does not set start_time = event_time.saturating_sub(duration)", rec)
 
@@ -433,7 +441,7 @@ def _aggregates(P, R):
                 dtxt = fmt_sym(avg.sym_local(l), maxdepth=12)
                 if "filter_map" in dtxt and "self.events" in dtxt:
                     filtered = True
-        if "len(" in den and "sum" in num.lower() and filtered:
+        if "len(" in den and ("sum" in num.lower() or "::sum(" in fmt_sym(d[2], maxdepth=12)) and filtered:
             R.hold("e", "average = sum(values) / values.len() over the filtered values (%s / %s)" % (num[-40:], den[-30:]), fn=avg)
         elif "len(" in den and not filtered:
             R.violate("e", "average:divisor", "average divides by `%s`, which is not the length of the filtered numeric values it summed" % den[:80], avg, div[0][0])
